@@ -1593,13 +1593,13 @@ func shortFuncName(f *types.Func) string {
 			t = pt.Elem()
 		}
 		if n, ok := t.(*types.Named); ok {
-			return n.Obj().Name() + "." + f.Name()
+			return typeDisplay(n.Obj()) + "." + funcDisplay(f)
 		}
 	}
 	if f.Pkg() != nil {
-		return f.Pkg().Name() + "." + f.Name()
+		return f.Pkg().Name() + "." + funcDisplay(f)
 	}
-	return f.Name()
+	return funcDisplay(f)
 }
 
 func (p *Program) PathStr(path Path) string {
